@@ -347,6 +347,22 @@ Proof.
     exists x, cx. rewrite (Ho x Hxh). rewrite effq_other in * by exact Hxh. auto.
 Qed.
 
+Lemma leave_group_client : forall w s ph pend h c,
+  Inv_p w s ph pend None -> get_client w h = Some c ->
+  exists c1, get_client (leave_group w h) h = Some c1 /\ c_group c1 = None.
+Proof.
+  intros w s ph pend h c HI Hc.
+  destruct (c_group c) as [g|] eqn:Hg.
+  2:{ exists c. unfold leave_group. rewrite Hc, Hg. auto. }
+  destruct (leave_group_decompose w h c g Hc Hg (proj1 HI)) as (w2 & c2 & Hn & Hc2 & Hco & ->).
+  pose proof (inv_neutral w w2 s ph pend None HI Hn) as HI2.
+  assert (Hg2 : c_group c2 = Some g) by (unfold core in Hco; congruence).
+  pose proof (inv_detach w2 s ph pend h c2 g HI2 Hc2 Hg2) as [HS3 _].
+  unfold push_client_all. rewrite get_client_enq_all by apply (s_nodup _ HS3).
+  rewrite (get_client_detach_self w2 h g c2 Hc2).
+  destruct (existsb _ _); cbn; eexists; split; reflexivity.
+Qed.
+
 Lemma inv_error_close : forall w s h pend e,
   Inv_p w s h pend None -> Inv_p (error_close w h e) s h [] None.
 Proof.
@@ -365,6 +381,7 @@ Proof.
       exists x, cx. rewrite effq_other in * by assumption. auto. }
   cbv zeta.
   pose proof (inv_leave_group w s h pend h HI) as H1.
+  destruct (leave_group_client w s h pend h c HI Hc) as (c1 & Hc1 & Hg1).
   set (w1 := leave_group w h) in *.
   set (w2 := match e with
              | EProto s0 => send w1 h (out_error (c_id c) s0)
@@ -378,5 +395,6 @@ Proof.
   assert (Hn : neutral w1 w3).
   { unfold w3, w2. destruct e; ntl. }
   pose proof (inv_neutral w1 w3 s h pend None H1 Hn) as H3.
-  destruct (s_valid_client w1 w3 h) as (c3 & Hc3 & Hg3).
-Abort.
+  destruct (neutral_client w1 w3 h c1 Hn Hc1) as (c3 & Hc3 & [Hco3 _]).
+  eapply inv_close; [exact H3 | exact Hc3 |]. unfold core in Hco3. congruence.
+Qed.
